@@ -106,8 +106,8 @@ Section Balanced.
     match s with
     | SInteger | SF _ => True
     | SI T => in_range T y /\ (sg T = false -> 0 <= y) /\
-              ((if prec =? 53 then bits T =? 64 else 32 <=? bits T) = false -> rnd prec y = y)
-    | SLL _ => rnd prec y = y
+              ((if prec =? 53 then bits T =? 64 else 32 <=? bits T) = false -> in_range i64 y)
+    | SLL _ => in_range i64 y
     | _ => False
     end.
   Theorem bf_init_correct prec s y : bf_src_ok prec s y -> exists r, bf_init p prec s y = Some r /\ balanced p y r.
@@ -117,8 +117,8 @@ Section Balanced.
     - destruct H as (Ha & Hu & Hg).
       destruct (prec =? 53); [destruct (bits T =? 64) | destruct (32 <=? bits T)];
         try (destruct (sg T) eqn:HsT; eexists; (split; [reflexivity|]); [apply bal_rem | apply bal_rem_hi; auto]);
-        (eexists; split; [reflexivity|]; rewrite Hg by reflexivity; apply bal_rem).
-    - eexists; split; [reflexivity|]. rewrite H. apply bal_rem.
+        (eexists; split; [reflexivity|]; rewrite (cast_id i64) by (try apply Hg; try reflexivity; unfold wf; cbn; lia); apply bal_rem).
+    - eexists; split; [reflexivity|]. rewrite (cast_id i64) by (try apply H; unfold wf; cbn; lia). apply bal_rem.
   Qed.
 
   (* integral element types int32_t / int64_t *)
@@ -126,8 +126,8 @@ Section Balanced.
     let E := Ity b true in
     match s with
     | SInteger | SF _ => True
-    | SI T => (sg T = false -> 0 <= y) /\ ((b =? 32) && (bits T =? 64) = false -> in_range E y)
-    | SLL _ => in_range E y
+    | SI T => (sg T = false -> 0 <= y) /\ ((b =? 32) && (bits T =? 64) = false -> if b =? 32 then in_range i64 y else in_range E y)
+    | SLL _ => if b =? 32 then in_range i64 y else in_range E y
     | _ => False
     end.
   Theorem bi_init_correct b s y :
@@ -140,10 +140,16 @@ Section Balanced.
     - destruct H as (Hu & Hg). destruct ((b =? 32) && (bits T =? 64)).
       + rewrite (cast_id _ (Z.rem y p)) by (auto; lia).
         destruct (sg T) eqn:HsT; eexists; (split; [reflexivity|]); [apply bal_rem | apply bal_rem_hi; auto].
-      + eexists; split; [reflexivity|]. rewrite cast_id by (auto; apply Hg; reflexivity). apply bal_rem.
+      + specialize (Hg eq_refl). destruct (b =? 32).
+        * eexists; split; [reflexivity|]. rewrite (cast_id i64) by (try apply Hg; unfold wf; cbn; lia).
+          pose proof (rem_bound y p ltac:(lia)) as [Hrb' _]. rewrite (cast_id _ (Z.rem y p)) by (auto; lia). apply bal_rem.
+        * eexists; split; [reflexivity|]. rewrite cast_id by (auto; apply Hg). apply bal_rem.
     - rewrite f2i_some by lia. eexists; split; [reflexivity|]. apply bal_rem.
     - eexists; split; [reflexivity|]. apply bal_rem.
-    - eexists; split; [reflexivity|]. rewrite cast_id by (auto; apply H). apply bal_rem.
+    - destruct (b =? 32).
+      + eexists; split; [reflexivity|]. rewrite (cast_id i64) by (try apply H; unfold wf; cbn; lia).
+        rewrite (cast_id _ (Z.rem y p)) by (auto; lia). apply bal_rem.
+      + eexists; split; [reflexivity|]. rewrite cast_id by (auto; apply H). apply bal_rem.
   Qed.
   (* zero, one, mOne = 0, 1, -1 are balanced representatives of themselves *)
   Theorem bal_constants : balanced p 0 0 /\ balanced p 1 1 /\ balanced p (-1) (-1).
@@ -163,7 +169,7 @@ Qed.
 Section Ruint.
   Variables K p : Z.
   Hypothesis HK : 6 <= K.
-  Hypothesis Hp : 2 <= p.
+  Hypothesis Hp : 2 <= p < 2 ^ (2 ^ K).        (* the modulus is a ruint<K> value *)
   Lemma ru_negin_spec x y : residue p y x -> residue p (- y) (ru_negin p x).
   Proof.
     intros [Hx Hc]. unfold ru_negin. destruct (Z.eqb_spec x 0) as [->|Hnz].
@@ -182,9 +188,15 @@ Section Ruint.
     - eapply residue_cong; [| apply ru_negin_spec; exact HR]. f_equal; lia.
     - eapply residue_cong; [| exact HR]. f_equal; lia.
   Qed.
-  (* Integer sources narrower than the element; native integers whose negation does not overflow *)
-  Theorem ru_init_Integer_correct a : Z.abs a < 2 ^ (2 ^ K) -> exists r, ru_init K p SInteger a = Some r /\ residue p a r.
-  Proof. intros. cbn [ru_init]. eexists; split; [reflexivity|]. apply ru_fin; auto; lia. Qed.
+  (* Integer source (repaired body): EVERY integer; native integers whose negation does not overflow *)
+  Theorem ru_init_Integer_correct a : exists r, ru_init K p SInteger a = Some r /\ residue p a r.
+  Proof.
+    cbn [ru_init]. eexists; split; [reflexivity|]. pose proof (Z.mod_pos_bound (Z.abs a) p ltac:(lia)).
+    unfold ru_wrap. rewrite (Z.mod_small (Z.abs a mod p)) by lia. rewrite Z.mod_mod by lia.
+    pose proof (residue_mod p (Z.abs a) ltac:(lia)) as HR. destruct (Z.ltb_spec a 0).
+    - eapply residue_cong; [| apply ru_negin_spec; exact HR]. f_equal; lia.
+    - eapply residue_cong; [| exact HR]. f_equal; lia.
+  Qed.
   Theorem ru_init_int_correct T a :
     wf T -> bits T <= 64 -> tmin T < a <= tmax T -> exists r, ru_init K p (SI T) a = Some r /\ residue p a r.
   Proof.
@@ -195,8 +207,12 @@ Section Ruint.
     rewrite wrapu_id by lia. pose proof pow_K. apply ru_fin; auto; lia.
   Qed.
 End Ruint.
-Theorem ru_init_wide_Integer_refuted : exists p a r, 2 <= p /\ ru_init 7 p SInteger a = Some r /\ ~ residue p a r.
-Proof. exists 3, (2 ^ 128), 0. split; [lia|]. split; [reflexivity|]. unfold residue; intros [_ H]; vm_compute in H; discriminate H. Qed.
+(* int32_t source: -a overflows in int for INT32_MIN and the sign-extended word is reduced (known finding) *)
+Theorem ru_init_int32_min_refuted : exists p a r, 2 <= p /\ in_range i32 a /\ ru_init 7 p (SI i32) a = Some r /\ ~ residue p a r.
+Proof.
+  exists 7, (- 2 ^ 31), 0. split; [lia|]. split; [unfold in_range; cbn; lia|]. split; [reflexivity|].
+  unfold residue; intros [_ H]; vm_compute in H; discriminate H.
+Qed.
 
 (* ------------------------------------------------------------------ table rings: the index that is looked up is x mod q *)
 Section Tables.
